@@ -280,10 +280,18 @@ def trace_job(prop, tier, seed, job, policy, known, acc):
         raise ToolError('trace not consumed (%s of %d lines): %s\n%s' % (done, nlines, err, '\n'.join(tail)))
     for r in res:
         div = dict(r)
-        div['diffs'] = list(r.get('diffs', [])) + [{'field': 'inv.' + i} for i in r.get('inv', [])]
-        if not div['kind']:
-            div['kind'] = 'state'
-        verdict, reason = classify(div, policy)
+        if div['kind']:
+            verdict, reason = classify(div, policy)
+        else:
+            verdict, reason = 'foreign', 'line matches'
+        if verdict != 'violation' and r.get('inv'):
+            # a design invariant fails on a state the implementation visited
+            mine = [i for i in r['inv'] if i in policy.get('invariants', [])]
+            div['kind'] = div['kind'] or 'invariant'
+            if mine:
+                verdict, reason = 'violation', 'state invariant(s) %s fail on a state the implementation reached' % mine
+            elif verdict != 'drift':
+                verdict, reason = 'foreign', 'foreign state invariant(s) %s fail' % r['inv']
         if verdict == 'violation':
             k = match_known(div, prop, known)
             if k:
